@@ -38,10 +38,9 @@ def race_schedules(ctx):
     os.makedirs(ctx.casedir, exist_ok=True)
     v = os.path.join(ctx.casedir, "sched_enum_c04i.v")
     body = HDR_I
-    fix7 = "true" if os.environ.get("VERIF_C04I_FIX7") else "false"   # validation of fixes/F7.diff only
     for i, (p, put, rm) in enumerate(SCENARIOS):
-        body += "Definition S_%d := Eval vm_compute in sched_strs FUEL (init7 %s %s %s %s).\nPrint S_%d.\n" % (
-            i, p, str(put).lower(), str(rm).lower(), fix7, i)
+        body += "Definition S_%d := Eval vm_compute in sched_strs FUEL (init %s %s %s).\nPrint S_%d.\n" % (
+            i, p, str(put).lower(), str(rm).lower(), i)
     open(v, "w").write(body)
     rc, out, _ = core.run(["coqc", "-Q", core.COQ, "AV", os.path.basename(v)], cwd=ctx.casedir, timeout=900)
     if rc != 0:
@@ -78,7 +77,7 @@ def stage_i(ctx, per_scenario, suffix="", off=0):
         if p == "POldCorrupt" and per_scenario:
             k *= 2
         pick = allsch if k >= len(allsch) else rnd.sample(allsch, k)
-        chosen += [dict(prior=p, put=put, rm=rm, fix7=bool(os.environ.get("VERIF_C04I_FIX7")), steps=x) for x in pick]
+        chosen += [dict(prior=p, put=put, rm=rm, steps=x) for x in pick]
     jf = os.path.join(ctx.casedir, "sched_" + name + ".json")
     json.dump(chosen, open(jf, "w"))
     rep = dict(_replace())
@@ -96,7 +95,7 @@ def run(ctx):
     def stages(ctx, mult, suffix, off):
         stage_h(ctx, n * mult, suffix, off)
         stage_i(ctx, 0 if (ctx.tier == "thorough" and not suffix) else 15 * mult, suffix, off)
-    return standard(ctx, "C04", ["model/C04_run.vo", "model/C04_race_run.vo"], stages, known_bits={4: "F20", 8: "F7"},
+    return standard(ctx, "C04", ["model/C04_run.vo", "model/C04_race_run.vo"], stages,
                     rule="random histories (8-40 requests) of PUT/TOUCH/GET/trash-list/DELETE/untrash/empty-trash on 1-2 Directory volumes, "
                          "time advanced by shifting file times; distinct by hash of the case term; non-trivial = a block was trashed or an untrash was issued",
                     assumptions=["virtual clock: time passes by shifting every mtime and trash deadline backwards by whole seconds; TTL 2 h, every age/deadline comparison kept >= 5 s from its boundary",
